@@ -592,7 +592,58 @@ def refusefirst(rep, c, sfx, callers_inc, inc_fns=None):
                     break
             if bad:
                 break
+        # ... and a refused call leaves at once: on the path on which the check says no, nothing else of the parser
+        # state is called or written before the function returns (a refused `sequence` that still runs its failure
+        # clean-up restores a stack snapshot it never took)
+        late = None
+        try:
+            import copy as _copy
+            from .. import inline as _inline
+            b2 = dict(b)
+            b2["body"] = _inline.Desugar(9000).run(_copy.deepcopy(b["body"]))
+            paths2 = list(exits(PathEnum(b2, inline_closures=True).paths()))
+        except hirq.TooManyPaths:
+            paths2 = []
+        for (ev, out) in paths2:
+            idx = hirq.index_of(ev, lambda e: e.kind == "call" and callee(e.node) in callers_inc)
+            if idx < 0:
+                continue
+            chk = ev[idx].node
+            refused = False
+            for e in ev[idx + 1:]:
+                if e.kind == "arm" and any(y is chk for y in walk(e.node.get("scrut") or {})):
+                    vs = [str(v).split("::")[-1] for v in hirq.pat_variants(e.node["arms"][e.extra]["pat"])]
+                    if "Err" in vs or "Break" in vs:
+                        refused = True
+                    break
+                if e.kind == "cond" and any(y is chk for y in walk(e.node)):
+                    cnd, truth = peel(e.node), e.extra
+                    while kind(cnd) == "Unary" and cnd["op"] == "!":
+                        cnd, truth = peel(cnd["e"]), (not truth)
+                    if truth is False:
+                        refused = True
+                    break
+            if not refused:
+                continue
+            for e in ev[idx + 1:]:
+                if e.kind == "assign" and hirq.field_write_target(e.node) and "ParserState" in str(hirq.field_write_target(e.node)[0]):
+                    late = (e.node, "assignment to " + str(hirq.field_write_target(e.node)[1]))
+                elif e.kind == "call" and isinstance(callee(e.node), str) and callee(e.node).startswith(PSTATE + "::") \
+                        and callee(e.node) not in callers_inc and "from_residual" not in callee(e.node):
+                    h = c.fn(callee(e.node))
+                    if h is not None and h.get("inputs") and not str(h["inputs"][0]).startswith("&pest") \
+                            and not (str(h["inputs"][0]).startswith("&") and not str(h["inputs"][0]).startswith("&mut")):
+                        late = (e.node, "call of " + callee(e.node).split("::")[-1])
+                if late:
+                    break
+            if late:
+                break
         r.instance(b["name"], where(b["body"]), "%d state writes, %d paths" % (len(muts), len(paths)))
+        if late:
+            r.violation(b["name"] + ":after-refusal", where(late[0]),
+                        "ParserState::%s goes on after the limit check refused the call (%s): the state handed back is not "
+                        "the caller's - e.g. a refused `sequence` that runs its failure clean-up pops a stack snapshot "
+                        "that the enclosing sequence took" % (b["name"], late[1]))
         if bad:
             r.violation(b["name"] + ":" + bad[0], where(bad[2]),
                         "ParserState::%s changes `%s` (%s) before it asks the call-limit tracker: when the call is "
